@@ -18,10 +18,10 @@
    check p = Ok vs excludes Panic (include path runs off the stack) and OutOfFuel
    (closure of Var.Refs not reached in the allotted rounds; C17_check_total shows
    that this never happens). *)
-From PV Require Import Lib.Bytes Model.Redundant Model.RedundantPaths Spec.MakeEval Spec.VerdictSound
+From PV Require Import Lib.Bytes Model.Redundant Model.RedundantPaths Model.RedundantCond Spec.MakeEval Spec.VerdictSound
   Spec.PathDenote Spec.SpellingIndep
   Proofs.RedundantRefuted Proofs.RedundantSound Proofs.RedundantReads Proofs.RedundantTotal
-  Proofs.RedundantPaths.
+  Proofs.RedundantPaths Proofs.RedundantCond Proofs.RedundantCondSim.
 
 Definition C17_verdict_sound_full : Prop :=
   forall (p : program) (vs : list verdict) (vd : verdict),
@@ -179,3 +179,49 @@ Theorem C17_verdict_sound_denoted_partial :
     guard (intern_by (same_denotation cwd) p) vd = true -> deletable (forget p) (vd_flagged vd).
 Proof. exact verdict_sound_denoted. Qed.
 Print Assumptions C17_verdict_sound_denoted_partial.
+
+(* ---------- conditional sections (.if ... .endif) ----------
+
+   cprogram      : every line carries Indentation.IsConditional() (Model/RedundantCond.v)
+   check_lines_c : the verdicts of RedundantScope.Check, line by line
+   plain p       : p without conditional sections *)
+
+Theorem C17_check_c_plain : forall p : program, check_c (plain p) = check p.
+Proof. exact check_c_plain. Qed.
+Print Assumptions C17_check_c_plain.
+
+(* An assignment inside a conditional section is never flagged and never makes
+   another line flagged: nothing is emitted at its line. *)
+Theorem C17_conditional_line_silent :
+  forall (p : cprogram) (per : list (list verdict)) (i : nat) (l : line),
+    check_lines_c p = Ok per -> nth_error p i = Some (true, l) -> nth_error per i = Some [].
+Proof. exact conditional_line_silent_program. Qed.
+Print Assumptions C17_conditional_line_silent.
+
+(* Once x has been assigned inside a conditional section, no later assignment to x
+   (conditional or not) emits a verdict. *)
+Theorem C17_conditional_is_sticky :
+  forall (pre : cprogram) (c : bool) (l : line) (post : cprogram) (per : list (list verdict)) (x : var),
+    check_lines_c (pre ++ (c, l) :: post) = Ok per ->
+    assigns x l = true -> cond_written x pre = true ->
+    nth_error per (length pre) = Some [].
+Proof. exact conditional_is_sticky_program. Qed.
+Print Assumptions C17_conditional_is_sticky.
+
+(* Every verdict given in the presence of conditional sections is also given for the
+   program without them ... *)
+Theorem C17_cond_verdicts_subset :
+  forall (p : cprogram) (vs vsc : list verdict),
+    check (map snd p) = Ok vs -> check_c p = Ok vsc -> incl vsc vs.
+Proof. exact cond_verdicts_subset. Qed.
+Print Assumptions C17_cond_verdicts_subset.
+
+(* ... hence the partial soundness theorem holds with conditional sections (whose
+   conditions mention no variable and are taken by make: deletable speaks about the
+   lines as make reads them). *)
+Theorem C17_verdict_sound_cond_partial :
+  forall (p : cprogram) (vs vsc : list verdict) (vd : verdict),
+    wf_program (map snd p) = true -> check (map snd p) = Ok vs -> check_c p = Ok vsc -> In vd vsc ->
+    guard (map snd p) vd = true -> deletable (map snd p) (vd_flagged vd).
+Proof. exact verdict_sound_cond. Qed.
+Print Assumptions C17_verdict_sound_cond_partial.
